@@ -33,7 +33,7 @@ CURATED = ['', ' ', '  ', 'a b', "it's", '"q"', '$(HOME)', '${HOME}', '$$', '$HO
            'a:~', 'a:~/b', '~:~', '/opt/p:~/p', 'x=~', 'x=~/y', 'a:~root', '~+', '~-', 'a:~+/b',
            '\U0001f600 smile', 'x y']
 
-CONTEXTS = ['cmd_arg', 'cmd_env', 'cmd_word', 'cmds_multi', 'step_arg', 'step_jbos',
+CONTEXTS = ['cmd_arg', 'cmd_env', 'cmd_str_envref', 'step_str_envref', 'cmd_word', 'cmds_multi', 'step_arg', 'step_jbos',
             'test_arg', 'test_env', 'driver_arg', 'driver_child', 'driver_child_wrap',
             'driver_nested', 'compile_opt', 'compile_opt_str', 'define_value',
             'link_opt', 'link_opt_str', 'include_path', 'desc_step', 'symlink_src',
@@ -179,6 +179,25 @@ def render_script(slots, script_slots=()):
                      % (i, i, _r(mark), _r(s)))
             cmd_targets.append('c%d' % i)
             exp[i] = {'kind': 'argv', 'argv': ['vrec', mark], 'env': {'VF_E': s}}
+        elif ctx == 'cmd_str_envref':
+            # a shell-string command: environment= must hold for the whole line (every
+            # process of a pipeline) and be visible to the line's own expansions
+            L.append("c%d = command('c%d', cmd=%s, environment={'VF_E': %s})"
+                     % (i, i, _r('vrec %s "$VF_E" | vrec %sb' % (mark, mark)), _r(s)))
+            cmd_targets.append('c%d' % i)
+            exp[i] = {'kind': 'argv', 'argv': ['vrec', mark, s], 'env': {'VF_E': s},
+                      'more': {mark + 'b': ['vrec', mark + 'b']},
+                      'more_env': {mark + 'b': {'VF_E': s}}}
+        elif ctx == 'step_str_envref':
+            L.append("t%d = build_step('o%d', cmd=%s, environment={'VF_E': %s})"
+                     % (i, i, _r('vrec %s "$VF_E" --touch o%d --end && vrec %sb' % (mark, i, mark)),
+                        _r(s)))
+            defaults.append('t%d' % i)
+            have_default = True
+            exp[i] = {'kind': 'argv-prefix', 'argv': ['vrec', mark, s, '--touch'],
+                      'out': 'o%d' % i, 'env': {'VF_E': s},
+                      'more': {mark + 'b': ['vrec', mark + 'b']},
+                      'more_env': {mark + 'b': {'VF_E': s}}}
         elif ctx == 'cmd_word':
             words.append(s)
             L.append("c%d = command('c%d', cmd=[%s, %s])" % (i, i, _r(s), _r(mark)))
@@ -522,6 +541,11 @@ def judge(backend, slots, script_slots, out, exp, root_hint=None):
                 r2 = by_mark.get(m2, [])
                 if len(r2) != 1 or [os.path.basename(r2[0]['argv'][0])] + r2[0]['argv'][1:] != want2:
                     bad = ('argv-differs', [x['argv'] for x in r2])
+            for m2, envs in e.get('more_env', {}).items():
+                for r2 in by_mark.get(m2, []):
+                    for name, val in envs.items():
+                        if r2['env'].get(name) != val:
+                            bad = ('env-differs-in-later-process', {name: r2['env'].get(name)})
             verdict[i] = bad
         elif k == 'jbos':
             rs = by_mark.get(mark, [])
